@@ -112,7 +112,7 @@ BASE_ENV = {"PATH": "/usr/bin:/bin", "LANG": "C", "LC_ALL": "C"}
 
 
 class WorldResult:
-    __slots__ = ("rc", "out", "err", "log", "files", "wall", "timeout", "sig")
+    __slots__ = ("rc", "out", "err", "log", "files", "wall", "timeout", "sig", "cpu")
 
     def __init__(self):
         self.rc = None
@@ -121,6 +121,7 @@ class WorldResult:
         self.log = ""
         self.files = {}
         self.wall = 0.0
+        self.cpu = None		# CPU seconds the world used (None when it did not end by itself)
         self.timeout = False
         self.sig = None
 
@@ -197,6 +198,11 @@ def run_world(binfo, argv, plan_lines, wdir, cwd=None, env=None, stdin_data=None
         r.out = ex.stdout or b""
         r.err = ex.stderr or b""
     r.wall = time.time() - t0
+    try:
+        r.cpu = int(open(log_path + ".cpu").read().strip()) / 1000.0
+        os.unlink(log_path + ".cpu")
+    except (OSError, ValueError):
+        r.cpu = None
     if keep_log:
         try:
             r.log = open(log_path, "r", errors="replace").read()
